@@ -27,7 +27,8 @@ Added by the audit (all judged by TLC; the pure model runs execute beside the re
     all eight transform / derivative / inverse-derivative operations, argument arrays ascending, descending, shuffled,
     with a duplicated maximum, int64, float32, NumPy scalars and 0-d arrays; after a call the caller scribbles over the
     array it passed; a call with an all-zero grid while the scale is undetermined must leave nothing behind
-    (the library does leave b = 0.0 behind: known finding, see known_findings.d/C19.json).  All comparisons are exact
+    (the library did leave b = 0.0 behind - found by this clause, repaired in /repo by 71a2ad0; the selftest mutant
+    refused-grid-leaves-scale-behind puts the defect back).  All comparisons are exact
     (array_equal against a fresh object with the scale passed explicitly; scales are integers).
  7. CoulombSys / CoulombGen / CoulombTrace: the lazily loaded parameter table as its own machine - TLC enumerates every
     behaviour of length 4 (Load by number / symbol, refused lookups, Edit, Drop), each is replayed with several
@@ -1228,6 +1229,14 @@ def selftest(tier: str = "quick") -> int:
                 self._b = store.setdefault("b", np.max(x))
         return patched(rt.ExpRTransform, "set_maximum_parameter_b", setb)
 
+    def refused_grid_leaves_scale():  # the defect repaired by 71a2ad0: the scale is stored before it is validated
+        def setb(self, x):
+            if self.b is None:
+                self._b = np.max(x)
+                if np.abs(self.b) < 1e-16:
+                    raise ValueError("The parameter b is taken from the maximum of the grid and can't be zero.")
+        return patched(rt.ExpRTransform, "set_maximum_parameter_b", setb)
+
     def wrapper_reinfers():  # InverseRTransform.transform forgets the scale of the wrapped transform
         orig = rt.InverseRTransform.transform
 
@@ -1296,7 +1305,7 @@ def selftest(tier: str = "quick") -> int:
                          ("unsquared-shell-grid-scales-cached-weights", shell_unsquared_scales_cache),
                          ("sizes-to-degrees-memoised-without-method", sizes_branch_memo)]),
         (only("scale"), [("scale-taken-from-last-element", scale_from_last_element), ("scale-is-a-view-of-the-callers-array", scale_is_view),
-                         ("scale-shared-by-all-objects-of-a-class", scale_shared_by_class), ("inverse-wrapper-reinfers-scale", wrapper_reinfers),
+                         ("scale-shared-by-all-objects-of-a-class", scale_shared_by_class), ("inverse-wrapper-reinfers-scale", wrapper_reinfers), ("refused-grid-leaves-scale-behind", refused_grid_leaves_scale),
                          ("deriv3_inverse-forgets-the-scale", base_inverse_derivs_forget_scale)]),
         (only("coulomb"), [("coulomb-symbol-lookups-memoised", coulomb_symbols_memoised), ("coulomb-refusal-truncates-table", coulomb_refusal_drops_entries),
                            ("coulomb-table-sorted-in-place", coulomb_table_sorted_in_place)]),
